@@ -866,7 +866,43 @@ RULE_NAMES = ["r1", "R2", "r3", "Alpha", "beta", "GAMMA", "delta", "a", "B", "c"
 
 
 @st.composite
+def c11_successor_s(draw):
+    """A service says OK about a pending client; a reload replaces it by another service (which takes over its place in
+    the daemon's table) before the client is accepted; a rule asks for an OK of the newcomer, which has said nothing."""
+    old = draw(st.sampled_from(["bot.ex", "Bot.ex", "a.ex", "zz.ex"]))
+    new = draw(st.sampled_from(["new.ex", "bot.example", "B.ex", "zzz.ex", old]))
+    otype = draw(st.sampled_from(["dronecheck", "combined"]))
+    svcs = list(draw(st.permutations([["login.ex", "login"], [old, otype]])))
+    rules = [[draw(st.sampled_from(["a_rule", "A1", "m"])), {"xreply_ok": draw(st.sampled_from([new, new.swapcase()])), "class": "viaNew"}],
+             [draw(st.sampled_from(["z_rule", "zz", "n"])), {"class": "fallback"}]]
+    if draw(st.booleans()):
+        rules.append(["b_old", {"xreply_ok": old, "class": "viaOld"}])
+    conf = {"modules": ["iauth_class", "iauth_xquery"], "services": svcs, "timeout": 0, "rules": rules, "logs": [["*.>=info", "file:iauthd.log"]]}
+    cid = draw(st.sampled_from([20, 0, 7]))
+    data = [["N", cid, "host.example.org"], ["u", cid, "ident"], ["n", cid, "Nick"], ["U", cid, "user", "real name"], ["P", cid, "+x alice pw"]]
+    ev = [["C", cid, "10.1.2.3", 4000]] + list(draw(st.permutations(data)))
+    ev.append(["X", cid, old, draw(st.sampled_from(["OK", "OK", "OK drone:1"])), "cur"])
+    rest = [s_ for s_ in svcs if s_[0] != old]
+    ntype = draw(st.sampled_from(["dronecheck", "combined", "login"]))
+    if draw(st.booleans()):
+        ev.append(["reconf", {"services": rest + [[new, ntype]]}])
+    else:
+        ev += [["reconf", {"services": rest}], ["reconf", {"services": rest + [[new, ntype]]}]]
+    k = draw(st.integers(0, 2))
+    if k == 1:
+        # the newcomer is asked on the client's next data event and answers
+        ev += [["n", cid, "Nick2"], ["X", cid, new, draw(st.sampled_from(["OK", "AGAIN later", "OK"])), "cur"]]
+    elif k == 2:
+        ev += [["n", cid, "Nick2"], ["x", cid, new, "cur"]]
+    ev.append(["X", cid, "login.ex", draw(st.sampled_from(["OK alice:1", "OK", "OK alice"])), "cur"])
+    ev += [["X", cid, new, "OK", "cur"], ["H", cid]]
+    return {"conf": conf, "events": ev}
+
+
+@st.composite
 def c11_s(draw, pid, tier, opts=None):
+    if draw(st.integers(0, 11)) == 0:
+        return draw(c11_successor_s())
     svcs = [["login.ex", draw(st.sampled_from(["login", "login", "login-ipr"]))], ["bot.ex", "dronecheck"]]
     if draw(st.booleans()):
         svcs.append(["comb.ex", "combined"])
